@@ -116,19 +116,20 @@ def check(tier, seed):
             rep.violate(f"non-ValueError-escapes:{rec.get('exc_type')}:{meth}", f"{meth}: {rec.get('exc_type')}: {rec.get('exc_msg')} at {rec.get('exc_where')}", wit)
             continue
         searches = rec.get("searches", [])
-        # ---- (c) policy on the first search of the 1-D family and bi-rectangle
+        # ---- (c) policy of the 1-D family and bi-rectangle, judged on the search() call that decided the outcome (the last one)
         if meth in ONE_D + ("BIRECTANGLE",) and searches:
-            s0 = searches[0]
-            exp = policy_expectation(s0)
-            counts = s0["counts"]
             if rec["outcome"] == "ValueError":
-                if rec.get("exc_msg") != "Search failed.":
-                    rep.violate(f"unexpected-ValueError:{meth}", f"{meth}: ValueError('{rec.get('exc_msg')}') at {rec.get('exc_where')}", wit)
+                msg = rec.get("exc_msg") or ""
+                if msg != "Search failed.":
+                    # the type is ValueError, which is all the statement asks for; counted so that the evidence shows it
+                    rep.count("accidental_ValueError_not_from_the_search_policy")
+                    rep.extra.setdefault("accidental_ValueError_examples", [])
+                    if len(rep.extra["accidental_ValueError_examples"]) < 3:
+                        rep.extra["accidental_ValueError_examples"].append({"method": meth, "msg": msg, "where": rec.get("exc_where")})
                 elif flag:
                     rep.violate(f"error-raised-although-asked-to-continue:{meth}", f"{meth}: Search failed. with continue_if_design_unmet=True", wit)
                 else:
-                    # the failing search must show an all-infeasible or all-over-satisfied table
-                    last = next((s for s in searches if isinstance(s["result"], str)), s0)
+                    last = next((s for s in searches if isinstance(s["result"], str)), searches[-1])
                     e2 = policy_expectation(last)
                     if e2 not in ("too-small", "too-large"):
                         rep.violate(f"error-raised-although-a-candidate-brackets:{meth}", f"{meth}: evaluations {last['evals'][:3]} bracket the limits but the run failed", wit)
@@ -139,23 +140,22 @@ def check(tier, seed):
                             to_verify.append((rec, e2, al))
             else:
                 f = rec["final"]
-                if exp == "too-large":
-                    if not flag:
-                        rep.violate(f"design-returned-although-no-candidate-feasible:{meth}", f"{meth}: evaluations {s0['evals'][:3]} all infeasible, flag off, but a design was returned", wit)
-                    else:
-                        last_s = searches[-1]
-                        ok_counts = {last_s["counts"][i] for i in allowed_last(last_s["counts"], last_s["cap"])}
-                        if f["nbh"] not in ok_counts or abs(f["H"] - f["hmax"]) > 1e-9:
-                            rep.violate(f"unmet-large-not-largest-at-max-height:{meth}", f"{meth}: returned {f['nbh']} bh at {f['H']} m; largest allowed {sorted(ok_counts)} at {f['hmax']} m", wit)
-                        rep.count("unmet_large_checked")
-                elif exp == "too-small":
-                    if not flag:
-                        rep.violate(f"design-returned-although-loads-too-small-and-flag-off:{meth}", f"{meth}: evaluations {s0['evals'][:3]}", wit)
-                    else:
-                        smallest = searches[-1]["counts"][0]
-                        if f["nbh"] != smallest or abs(f["H"] - f["hmin"]) > 1e-9:
-                            rep.violate(f"unmet-small-not-smallest-at-min-height:{meth}", f"{meth}: returned {f['nbh']} bh at {f['H']} m; smallest {smallest} at {f['hmin']} m", wit)
-                        rep.count("unmet_small_checked")
+                last_s = searches[-1]
+                exp = policy_expectation(last_s)
+                took_large = last_s.get("escape_large", 0) > 0
+                took_small = last_s.get("escape_small", 0) > 0
+                if (took_large or took_small) and not flag:
+                    rep.violate(f"escape-taken-although-flag-off:{meth}", f"{meth}: an unmet design was returned with continue_if_design_unmet=False", wit)
+                if exp == "too-large" or took_large:
+                    ok_counts = {last_s["counts"][i] for i in allowed_last(last_s["counts"], last_s["cap"])}
+                    if not took_large or f["nbh"] not in ok_counts or abs(f["H"] - f["hmax"]) > 1e-9:
+                        rep.violate(f"unmet-large-not-largest-at-max-height:{meth}", f"{meth}: evaluations {last_s['evals'][:3]}; returned {f['nbh']} bh at {f['H']} m; largest allowed {sorted(ok_counts)} at {f['hmax']} m", wit)
+                    rep.count("unmet_large_checked")
+                elif exp == "too-small" or took_small:
+                    smallest = last_s["counts"][0]
+                    if not took_small or f["nbh"] != smallest or abs(f["H"] - f["hmin"]) > 1e-9:
+                        rep.violate(f"unmet-small-not-smallest-at-min-height:{meth}", f"{meth}: evaluations {last_s['evals'][:3]}; returned {f['nbh']} bh at {f['H']} m; smallest {smallest} at {f['hmin']} m", wit)
+                    rep.count("unmet_small_checked")
         elif rec["outcome"] == "ValueError":
             origin = rec.get("exc_origin")
             msg = rec.get("exc_msg") or ""
@@ -169,14 +169,14 @@ def check(tier, seed):
                 elif msg == "Search failed." and flag:
                     rep.violate(f"error-raised-although-asked-to-continue:{meth}", f"{meth}: Search failed. with continue flag on", wit)
                 else:
-                    rep.violate(f"unexpected-ValueError:{meth}", f"{meth}: ValueError('{msg}') at {rec.get('exc_where')}", wit)
+                    rep.count("accidental_ValueError_not_from_the_search_policy")
             elif meth == "ROWWISE":
                 if msg == "Search failed." and not flag:
                     rep.count("ValueError_rowwise_flag_off")
                 elif "truth value of an array" in msg:
                     rep.count("accidental_ValueError_rowwise_equidistant_boreholes")
                 else:
-                    rep.violate(f"unexpected-ValueError:{meth}", f"{meth}: ValueError('{msg}') at {rec.get('exc_where')}", wit)
+                    rep.count("accidental_ValueError_not_from_the_search_policy")
         # ---- (a) (b) on every returned design
         if rec["outcome"] == "design":
             f = rec["final"]
@@ -221,7 +221,7 @@ def check(tier, seed):
         rep.inconclusive.append("both continue branches were not observed for the 1-D / bi-rectangle searches")
     rep.assumptions = [
         "'largest allowed' accepts count < cap (as coded) or <= cap",
-        "RowWise runs that die with numpy's truth-value ValueError on equidistant boreholes are counted, not judged (the type is ValueError)",
+        "ValueErrors that do not come from the search policy (numpy truth-value error in RowWise, NaN resistance at extreme flows) are counted, not judged: the statement only constrains the type",
         "degenerate inputs are not generated (see rule)",
     ]
     return rep
